@@ -329,7 +329,14 @@ func runCase(t *rapid.T, c *ev.Case) {
 		if rapid.Bool().Draw(t, "readAtOnce") {
 			x.exec(Op{Kind: "read"}) // immediately after the fault (failover in progress)
 		}
-		for i := 0; i < rapid.IntRange(1, 3).Draw(t, "wDown"); i++ {
+		nDown := rapid.IntRange(1, 3).Draw(t, "wDown")
+		if rapid.Bool().Draw(t, "burstDown") {
+			// a longer run of requests of varying size while the store is away: it has to catch up on many entries from the
+			// leader's log (and the leader has recycled its request buffers several times meanwhile)
+			nDown = rapid.IntRange(12, 24).Draw(t, "wBurst")
+			c.Class("burst-of-writes-while-a-store-is-down")
+		}
+		for i := 0; i < nDown; i++ {
 			x.exec(Op{Kind: "write", Points: g.batch(t)})
 		}
 		if rapid.Bool().Draw(t, "flushDown") {
